@@ -519,7 +519,12 @@ def run_case(case, maxwait, quiet, model=None):
     pred = None
     if model is not None:
         pred = model(case)
-        hints = pred["heads"]
+        hints = list(pred["heads"])
+        # the model's store never fails: no wait hints once a store fault is armed
+        for k, op in enumerate(case["ops"]):
+            if op.startswith("failput"):
+                hints[k + 1:] = [None] * (len(hints) - k - 1)
+                break
     full = dict(case, ops=case["ops"])
     res, dump, bad = run_impl(full, maxwait, quiet, hints)
     if bad:
@@ -581,6 +586,10 @@ def compare_model(case, res, pred):
             if s["up"][i] and hv < heads[ref][i]:
                 out.append(("trace:L", f"line {k}: node {i} has head {hv}, the model's fair run had {heads[ref][i]} already {SL} sub-steps earlier"))
                 return out
+    for k, s in snaps:
+        if "inj" in s and pred["inj"][k] is not None and s["inj"] != pred["inj"][k]:
+            out.append(("trace:I", f"line {k} ({(['init'] + case['ops'])[k]}): the implementation answered {s['inj']}, the model {pred['inj'][k]}"))
+            return out
     last = snaps[-1][1]
     if last.get("ep") and eps[snaps[-1][0]] is not None:
         for i, (a, b) in enumerate(zip(last["ep"], eps[snaps[-1][0]])):
@@ -602,17 +611,18 @@ def model_runner():
         rc, out, err = core.run_lines(d, ["netr"], lines, timeout=300)
         if rc != 0 or len(out) != len(lines):
             raise core.Broken("model:netr", f"exit {rc}, {len(out)}/{len(lines)} lines: {err[-500:]} {out[-2:]}")
-        heads, eps = [], []
+        heads, eps, inj = [], [], []
         for l in out:
             kv = dict(t.split("=", 1) for t in l.split() if "=" in t)
             if "m" not in kv:
                 if l.startswith("bad"):
                     raise core.Broken("model:netr", f"the model driver refused a script line: {l}")
-                heads.append(None); eps.append(None)
+                heads.append(None); eps.append(None); inj.append(None)
                 continue
             heads.append([int(x) for x in kv["m"].split(",")])
             eps.append([None if x == "-" else int(x) for x in kv["ep"].split(",")])
-        return {"heads": heads, "epochs": eps, "raw": out}
+            inj.append(kv.get("inj"))
+        return {"heads": heads, "epochs": eps, "inj": inj, "raw": out}
     return run
 
 
